@@ -1,6 +1,7 @@
 import Cpppo.Proofs.Connected
 import Cpppo.Proofs.CanonWire
 import Cpppo.Proofs.Bundle
+import Cpppo.Proofs.Wf
 import Cpppo.Props.C03
 import Cpppo.Props.C07
 import Cpppo.Model.Client
